@@ -26,7 +26,7 @@
 From Coq Require Import Floats Permutation.
 From JM Require Import Model.Base Model.Num Model.Value Model.JsonText Model.Lexer Model.Parser Model.Interp Model.Api
      Spec.Grammar Spec.Semantics Proofs.ValueFacts Proofs.InterpRefine Proofs.CompileTotal Proofs.ParserShape
-     Proofs.SearchTotal Proofs.ApiFacts Proofs.ParserTotal Proofs.ParserComplete Proofs.LexText Proofs.ParserSound Inst.FloatNum Run.Checker.
+     Proofs.SearchTotal Proofs.ApiFacts Proofs.ParserTotal Proofs.ParserComplete Proofs.LexText Proofs.ParserSound Proofs.LitText Inst.FloatNum Run.Checker.
 
 Section C04.
 Context {NumO : NumOps}.
@@ -56,10 +56,11 @@ Proof. exact (compiled_is_tree ord ord_perm). Qed.
 
 (* every sentence of the grammar is accepted, with the AST of its tree: for any
    token list that spells a well-precedenced tree (types and values; positions
-   free) and ends in its only EOF.  lit_text: the JSON text chosen for a literal,
-   assumed to be read back as that literal. *)
+   free) and ends in its only EOF.  lit_text: the JSON text chosen for a literal: a
+   JSON text of v whenever v has one, not a JSON text otherwise (lit_spec); such a
+   choice exists (C04_lit_text_exists below). *)
 Variable lit_text : value -> bytes.
-Hypothesis lit_ok : forall v, is_json v = true -> json_unmarshal (lit_text v) = Some v.
+Hypothesis lit_ok : lit_spec lit_text.
 
 Theorem C04_grammatical_is_accepted :
   forall (x : expr) (ts : list token),
@@ -98,8 +99,15 @@ Theorem C04_grammatical_text_is_accepted :
     Api.compile (expr_text lit_text x) = Ok (compile x).
 Proof. exact (compile_expr_text lit_text lit_ok). Qed.
 
+(* the hypothesis on lit_text can be met (this statement, and only this one, uses
+   the standard library's excluded middle and indefinite description) *)
+Theorem C04_lit_text_exists : exists lt : value -> bytes, lit_spec lt.
+Proof. exact lit_spec_satisfiable. Qed.
+
 End C04.
 
+
+Print Assumptions C04_lit_text_exists.
 Print Assumptions C04_accept_or_reject.
 Print Assumptions C04_grammatical_is_accepted.
 Print Assumptions C04_accepted_is_a_sentence.
